@@ -8,6 +8,8 @@ import PyamgV.Proofs.C14KNum
 import PyamgV.Proofs.C14Evol
 import PyamgV.Proofs.ExtC14Energy
 import PyamgV.Proofs.ExtC14Evol
+import PyamgV.Proofs.ExtC14XNoBlock
+import PyamgV.Proofs.ExtC14XSqrt
 
 /-! # C14 — strength-of-connection matrices obey the common contract and their rules
 
@@ -25,7 +27,7 @@ the public functions (pattern exactly, values to 4 ulp) on every run.  Rows are 
 stored entries: unsorted, duplicated, missing / zero diagonal, empty.  Scalars are rationals
 (exact-field model). -/
 namespace PyamgV.Props.C14
-open PyamgV PyamgV.C14
+open PyamgV PyamgV.C14 PyamgV.C14X
 
 /-- classical kernel, both norms, real and complex: the output row is the order-preserving filter
 "diagonal, or `nrm a_ij ≥ θ · maxOff`" of the input row -/
@@ -199,5 +201,119 @@ example : distStrengthRow (1000000) (1/1024) (some 2) true 1 [(0, 1), (1, 1/1000
 
 example : evolTail 1000000 (1/1024) 2 true [[(0, 5), (1, 1/2)], [(1, 7), (2, 1)], [(0, 3), (2, 9)]]
     = [[(0, 1/4), (1, 1), (2, 1/6)], [(0, 1), (1, 1/4), (2, 1/2)], [(0, 1/3), (1, 1), (2, 1/2)]] := by decide +kernel
+
+/-! ### extension E40: BSR input and complex input (models of `Model/ExtC14XBlock.lean`, ops `ext_c14x_*`, compared on every
+run with the real functions: complex CSR data with irrational moduli, real and complex BSR data on the block path, the
+`block=False` path from the BSR arrays through the model of `A.tocsr()`, the symmetric measure with irrational block norms,
+the energy measure on complex CSR and on real / complex BSR input).  Scalars are read through a modulus; the theorems use
+only the axioms `IsModulus` (non-negative, zero exactly at zero) resp. `IsMulModulus` (multiplicative as well). -/
+
+/-- instances of the modulus axioms: `|·|` on the rationals, the squared modulus on the Gaussian rationals (both
+multiplicative), and the modulus `sq (re² + im²)` the driver uses, for every admissible square-root function -/
+restate modulus_abs := PyamgV.C14X.absQ_isMulModulus
+restate modulus_complex_normsq := PyamgV.C14X.normSq_isMulModulus
+restate modulus_complex := PyamgV.C14X.cmodS_isModulus
+restate modulus_complex_squares := PyamgV.C14X.cmodS_sq_exact
+/-- the square root the driver plugs in (`sqrtApprox p`) is admissible: non-negative, positive on positives, `0` at `0` -/
+restate sqrt_admissible := PyamgV.C14X.sqrtApprox_sqrtLike
+/-- classical measure, CSR, any scalar type with a modulus: pattern ⊆ pattern of `A`, entry-wise rule, non-zero diagonal
+kept, entries in `(0,1]`, every non-empty row attains `1` -/
+restate classical_contract_modulus := PyamgV.C14X.modClassical_contract
+/-- symmetric measure, CSR, any scalar type with a modulus: the rule `nsq a_ij ≥ θ²·|a_ii|·|a_jj|`, stored diagonal kept,
+entries in `[0,1]`, row maximum `1` -/
+restate symmetric_contract_modulus := PyamgV.C14X.modSymmetric_contract
+/-- the symmetric rule does not change under `A ↦ D A D` (multiplicativity of the modulus) -/
+restate symmetric_rule_scaling_invariant := PyamgV.C14X.sym_rule_scaling_invariant
+/-- the complex models the driver runs (`cclassical`, `csymmetric`: complex CSR data, any moduli) -/
+restate complex_classical_contract := PyamgV.C14X.cclassical_contract
+restate complex_symmetric_contract := PyamgV.C14X.csymmetric_contract
+
+/-- block-wise reductions of BSR input: `'abs'` is the largest modulus of the block (bounds, attained, zero iff the block
+is zero), `'fro'` the sum of the squared moduli (zero iff the block is zero), `'min'` the smallest entry -/
+restate block_abs_bounds_modulus := PyamgV.C14X.blockAbsG_ge
+restate block_abs_attained_modulus := PyamgV.C14X.blockAbsG_attained
+restate block_abs_zero_iff_modulus := PyamgV.C14X.blockAbsG_eq_zero_iff
+restate block_fro_is_sum := PyamgV.C14X.blockFroG_eq_sum
+restate block_fro_zero_iff := PyamgV.C14X.blockFroG_eq_zero_iff
+restate block_min_bounds := PyamgV.C14X.blockMinG_le
+restate block_min_attained := PyamgV.C14X.blockMinG_attained
+/-- the entries of a stored block; the nodal matrix has one entry per stored block -/
+restate block_entries := PyamgV.C14X.mem_blkEntries
+restate nodal_row_entries := PyamgV.C14X.mem_redRow
+/-- the absolute `1e-16` drop leaves `0` or a value of magnitude `≥ drop` -/
+restate block_drop_normal := PyamgV.C14X.dropSmall_normal
+/-- `classical_strength_of_connection(A_bsr, block=True)`: rejected inputs are an unknown norm and `'min'` on complex data -/
+restate classical_block_rejects := PyamgV.C14X.classicalBlock_none_iff
+restate classical_block_norm_dispatch := PyamgV.C14X.blockRed_cases
+/-- **nodal entry `(I,J)` is kept iff the block-norm rule holds** -/
+restate classical_block_rule := PyamgV.C14X.classicalBlock_rule
+/-- **contract of the block result**: `N` rows, pattern ⊆ block pattern, `(0,1]`, non-empty rows attain `1`, diagonal kept -/
+restate classical_block_contract := PyamgV.C14X.classicalBlock_contract
+
+/-- `A.tocsr()` of a BSR matrix (`Spmm.bsrToCsr`): its rows, its stored entries, and its dense meaning -/
+restate bsr_tocsr_row := PyamgV.C14X.scalarRow_eq
+restate bsr_tocsr_entries := PyamgV.C14X.mem_scalarRow
+restate bsr_tocsr_meaning := PyamgV.Spmm.val_bsrToCsr
+/-- `block=False` on BSR input: nodal `(I,J)` present (value one) iff the scalar strength matrix of `A.tocsr()` stores
+some `(i,j)` with `i` in block row `I`, `j` in block column `J` -/
+restate classical_noblock_rule := PyamgV.C14X.classicalNoBlock_rule
+restate classical_noblock_rejects := PyamgV.C14X.classicalNoBlock_none_iff
+
+/-- symmetric measure on BSR input: rule on the Frobenius-type block values, contract; `θ = 0`: ones on the block pattern;
+for canonical BSR the `diags` value is the value of the diagonal block -/
+restate symmetric_bsr_rule := PyamgV.C14X.symmetricBsr_rule
+restate symmetric_bsr_theta_zero := PyamgV.C14X.symmetricBsr_theta_zero
+restate symmetric_bsr_diagonal_value := PyamgV.C14X.symD_unique
+
+/-- energy measure on complex CSR input (model `energyFullC`): contract and drop rule; the measure is non-negative; the
+complex square root of the model is the principal square root when the real square root is exact -/
+restate energy_complex_contract := PyamgV.C14X.energyFullC_contract
+restate energy_complex_rule := PyamgV.C14X.energyFullC_rule
+restate energy_complex_rowwise := PyamgV.C14X.energyFullC_row
+restate energy_complex_measure_nonneg := PyamgV.C14X.cEnVal_nonneg
+restate complex_sqrt_principal := PyamgV.C14X.csqrtS_spec
+/-- energy measure on BSR input: nodal rows of ones, nodal diagonal always stored, nodal `(I,J)` present iff a scalar row
+of block row `I` keeps a column of block column `J`; pattern inside the block pattern of `A` plus the diagonal -/
+restate energy_bsr_tail_contract := PyamgV.C14X.energyBsrTail_contract
+restate energy_bsr_contract := PyamgV.C14X.energyFullBsr_contract
+restate energy_bsr_complex_contract := PyamgV.C14X.energyFullBsrC_contract
+
+/-! non-vacuity of the E40 models: a 4x4 matrix of two 2x2 block rows
+`[[4,-1 | -2,0],[1,4 | 0,-1]], [[-3,0 | 8,2],[0,0 | 1,8]]`: block values `'abs'` `[[4,2],[3,8]]`, at `θ = 3/4` block `(0,1)`
+(`2 ≥ 3/4·2`, a tie-free keep) and `(1,0)` are kept; `'fro'` gives `[[34,5],[9,133]]`; with `block=False` the amalgamated
+pattern is full; the symmetric measure keeps `(0,1)` at `θ = 1/4` (`5 ≥ 1/16·√34·√133` with the approximate root);
+a complex row with irrational moduli `|1+2i| = √5`, `|2+i| = √5` (an exact tie at `θ = 1`) -/
+example : classicalBlock N.absQ (fun v : Rat => v * v) (fun v : Rat => v) true "abs" (1/1024) (1/1000000) (3/4)
+      ⟨4, 4, 2, 2, #[0, 2, 4], #[0, 1, 0, 1], #[4, -1, 1, 4, -2, 0, 0, -1, -3, 0, 0, 0, 8, 2, 1, 8]⟩
+    = some [[(0, 1), (1, 1/2)], [(0, 3/8), (1, 1)]] := by decide +kernel
+example : classicalBlock N.absQ (fun v : Rat => v * v) (fun v : Rat => v) true "fro" (1/1024) (1/1000000) (1/2)
+      ⟨4, 4, 2, 2, #[0, 2, 4], #[0, 1, 0, 1], #[4, -1, 1, 4, -2, 0, 0, -1, -3, 0, 0, 0, 8, 2, 1, 8]⟩
+    = some [[(0, 1), (1, 5/34)], [(0, 9/133), (1, 1)]] := by decide +kernel
+example : classicalBlock N.absQ (fun v : Rat => v * v) (fun v : Rat => v) true "min" (1/1024) (1/1000000) (1/2)
+      ⟨4, 4, 2, 2, #[0, 2, 4], #[0, 1, 0, 1], #[4, -1, 1, 4, -2, 0, 0, -1, -3, 0, 0, 0, 8, 2, 1, 8]⟩
+    = some [[(0, 1/2), (1, 1)], [(0, 1), (1, 1/3)]] := by decide +kernel
+example : classicalBlock (cmodS (sqrtApprox 4)) CRat.normSq creal false "min" (1/1024) (1/1000000) (1/2)
+      ⟨2, 2, 1, 1, #[0, 1, 2], #[0, 1], #[⟨1, 0⟩, ⟨1, 0⟩]⟩ = none := by decide +kernel
+example : classicalNoBlock N.absQ (fun v : Rat => v) true "abs" (1/1024) (1/2)
+      ⟨4, 4, 2, 2, #[0, 2, 4], #[0, 1, 0, 1], #[4, -1, 1, 4, -2, 0, 0, -1, -3, 0, 0, 0, 8, 2, 1, 8]⟩
+    = some [[(0, 1), (1, 1)], [(0, 1), (1, 1)]] := by decide +kernel
+example : scalarRows (⟨4, 4, 2, 2, #[0, 2, 4], #[0, 1, 0, 1], #[4, -1, 1, 4, -2, 0, 0, -1, -3, 0, 0, 0, 8, 2, 1, 8]⟩ : Spmm.Bsr Rat)
+    = [[(0, 4), (1, -1), (2, -2), (3, 0)], [(0, 1), (1, 4), (2, 0), (3, -1)],
+       [(0, -3), (1, 0), (2, 8), (3, 2)], [(0, 0), (1, 0), (2, 1), (3, 8)]] := by decide +kernel
+example : (symmetricBsr (sqrtApprox 4) (fun v : Rat => v * v) (1/1024) (1/4)
+      ⟨4, 4, 2, 2, #[0, 2, 4], #[0, 1, 0, 1], #[4, -1, 1, 4, -2, 0, 0, -1, -3, 0, 0, 0, 8, 2, 1, 8]⟩).map
+        (fun rows => rows.map fun r => r.map Prod.fst) = some [[0, 1], [0, 1]] := by decide +kernel
+example : (symmetricBsr (sqrtApprox 4) (fun v : Rat => v * v) (1/1024) 1
+      ⟨4, 4, 2, 2, #[0, 2, 4], #[0, 1, 0, 1], #[4, -1, 1, 4, -2, 0, 0, -1, -3, 0, 0, 0, 8, 2, 1, 8]⟩).map
+        (fun rows => rows.map fun r => r.map Prod.fst) = some [[0], [1]] := by decide +kernel
+example : (cclassical (sqrtApprox 8) (1/1024) 1 [[(0, ⟨3, 0⟩), (1, ⟨1, 2⟩), (2, ⟨2, 1⟩), (3, ⟨1, 1⟩)]]).map
+    (fun r => r.map Prod.fst) = [[0, 1, 2]] := by decide +kernel
+example : csqrtS (sqrtApprox 4) ⟨-5, 12⟩ = ⟨2, 3⟩ ∧ csqrtS (sqrtApprox 4) ⟨-4, 0⟩ = ⟨0, 2⟩ := by decide +kernel
+example : (energyFullC (sqrtApprox 16) (1/2) (-1/100) (1/1024) (1/4) 1
+      [[(0, ⟨2, 0⟩), (1, ⟨0, -1⟩)], [(0, ⟨0, 1⟩), (1, ⟨2, 0⟩), (2, ⟨-1, 0⟩)], [(1, ⟨-1, 0⟩), (2, ⟨4, 0⟩)]]).map
+    (fun r => r.map Prod.fst) = [[0, 1], [0, 1, 2], [1, 2]] := by decide +kernel
+example : energyFullBsr (sqrtApprox 16) (1/2) (-1/100) (1/1024) (1/4) 1
+      ⟨4, 4, 2, 2, #[0, 2, 4], #[0, 1, 0, 1], #[4, -1, -1, 4, -2, 0, 0, -1, -2, 0, 0, -1, 8, 2, 2, 8]⟩
+    = [[(0, 1), (1, 1)], [(0, 1), (1, 1)]] := by decide +kernel
 
 end PyamgV.Props.C14
